@@ -365,3 +365,27 @@ func debugWrites(w *World, names []string) {
 		}
 	}
 }
+
+func debugCallKills(w *World, names []string) {
+	m := newMemInfo(w)
+	fn := w.Func(names[0])
+	e := memEntry{cat: names[1]}
+	for _, b := range fn.Blocks {
+		for _, in := range b.Instrs {
+			c, ok := in.(ssa.CallInstruction)
+			if !ok {
+				continue
+			}
+			if _, isB := c.Common().Value.(*ssa.Builtin); isB {
+				continue
+			}
+			for _, cal := range w.Callees(c) {
+				for _, cat := range m.writeCats(cal) {
+					if killMatches(e, cat, false) {
+						fmt.Printf("%s: call of %s kills via %s\n", w.Pos(in.Pos()), fnName(cal), cat)
+					}
+				}
+			}
+		}
+	}
+}
